@@ -111,12 +111,24 @@ def run(tier):
             V.violation("history:%s:%s" % (r["status"], "cyclic-import" if cyc else ms["op"]), "the VM %s at step %d (%s) of an edit history: %s" % (r["status"], step, ms["op"], r.get("msg", "")[-300:]), {"history": j["history"], "model": j["model"]})
             continue
         edits_since_eval = 0
+        imports_of, obs_ran = {}, set()
         for k, (ms, rs) in enumerate(zip(j["model"], r["steps"])):
             if rs.get("status") == "panic":
                 V.violation("panic:%s:%s" % (ms["op"], re.sub(r"\d+", "N", rs.get("msg", ""))[:60]), "step %d (%s) panicked: %s" % (k, ms["op"], rs.get("msg", "")[:300]), {"history": j["history"], "model": j["model"], "step": k})
                 break
             if ms["op"] != "eval":
                 edits_since_eval += 1
+                # what the VM has really run: an edit that changes a module forgets it and everything that imports it
+                imports_of[ms["m"]] = set(ms.get("imports", []))
+                if ms.get("changed", True):
+                    stale, grew = {ms["m"]}, True
+                    while grew:
+                        grew = False
+                        for mm, deps in imports_of.items():
+                            if mm not in stale and deps & stale:
+                                stale.add(mm)
+                                grew = True
+                    obs_ran -= stale
                 continue
             evals += 1
             if edits_since_eval:
@@ -143,7 +155,10 @@ def run(tier):
             ticks = rs.get("ticks", [])
             if len(set(ticks)) != len(ticks):
                 V.violation("evaluated-twice-in-one-import", "module bodies ran more than once during one import: %s" % ticks, rep)
-            extra = set(ticks) - set(ms["mayrun"])
+            # judged against what the VM was actually seen to run (after a recorded stale answer the model and the VM
+            # disagree on which bodies have run already)
+            extra = {m for m in set(ticks) - set(ms["mayrun"]) if m in obs_ran}
+            obs_ran |= set(ticks)
             if extra:
                 V.violation("evaluated-again-without-change:%s" % pre, "modules %s ran again although no source changed since they last ran (already evaluated: %s)" % (sorted(extra), ms["evald"]), rep)
     rc = V.finish()
